@@ -37,6 +37,7 @@ func runC08(c *Ctx) {
 	// likewise the sender registers an id before the STAT that announces it
 	r07_3(c, "R08.7")
 	r06_1(c, "R08.8")
+	r08_9(c, "R08.9")
 }
 
 // R08.1: all sends are serialised.
@@ -105,6 +106,21 @@ func r08_1(c *Ctx, rule string) {
 			recv := call.Common().Value
 			owner, _, _, isField := eng.LoadedField(recv)
 			con := c.siteName(call)
+			if !isField {
+				// a helper that is handed the stream: every stream it is handed
+				all := eng.ResolveAll(recv)
+				okAll := len(all) > 0
+				for _, r := range all {
+					o, _, _, f := eng.LoadedFieldRaw(r)
+					if !f || (o != "fsutil.sender.conn" && o != "fsutil.receiver.conn") {
+						okAll = false
+					}
+				}
+				if okAll {
+					c.R.OK(rule, con, c.pos(call), "SendMsg on a stream parameter that is only ever sender.conn / receiver.conn")
+					continue
+				}
+			}
 			switch {
 			case isField && (owner == "fsutil.sender.conn" || owner == "fsutil.receiver.conn"):
 				c.R.OK(rule, con, c.pos(call), "SendMsg on "+owner+", which only ever holds a *syncStream")
@@ -290,6 +306,128 @@ var publishTable = []struct{ typ, field, ch string }{
 	{"dynamicWalker", "err", "closeCh"},
 }
 
+// R08.9 (= R07.8): nothing blocks while a mutex of the transfer is held.
+//
+// The receive loop, the sender's request loop and the writer goroutines share
+// the mutexes of sender/receiver. A goroutine that waits for its peer (stream
+// send or receive, channel operation, Wait) while holding one of them stops
+// every other goroutine that needs the mutex - among them the one whose
+// progress the peer is waiting for.
+func r08_9(c *Ctx, rule string) {
+	c.R.Rule(rule, "no stream send/receive, channel operation, Wait, or call of a function that may do one of these is executed while a sender/receiver/DiskWriter mutex may be held (syncStream's own send mutex excepted: serialising sends is its purpose)")
+	// functions that may block, transitively through static calls
+	blockingOp := func(in ssa.Instruction) (string, bool) {
+		switch x := in.(type) {
+		case *ssa.Send:
+			return "channel send", true
+		case *ssa.UnOp:
+			if x.Op == token.ARROW {
+				return "channel receive", true
+			}
+		case *ssa.Select:
+			if x.Blocking {
+				return "select", true
+			}
+		case ssa.CallInstruction:
+			if _, isGo := in.(*ssa.Go); isGo {
+				return "", false
+			}
+			if _, isDefer := in.(*ssa.Defer); isDefer {
+				return "", false
+			}
+			switch n := c.P.CalleeName(x); n {
+			case "(fsutil.Stream).SendMsg", "(fsutil.Stream).RecvMsg", "fsutil.(*syncStream).SendMsg", "fsutil.(*wrappedWriteCloser).Wait",
+				"(*golang.org/x/sync/errgroup.Group).Wait", "(*sync.WaitGroup).Wait", "fsutil.(*DiskWriter).Wait":
+				return n, true
+			}
+		}
+		return "", false
+	}
+	var fns []*ssa.Function
+	for _, fn := range c.P.ModFuncs {
+		if fnPkgShort(c, fn) == "fsutil" && !c.P.IsTestFile(fn.Pos()) {
+			fns = append(fns, fn)
+		}
+	}
+	blocks := map[*ssa.Function]string{}
+	for _, fn := range fns {
+		eng.InstrsShallow(fn, func(in ssa.Instruction) {
+			if what, ok := blockingOp(in); ok && blocks[fn] == "" {
+				blocks[fn] = what
+			}
+		})
+	}
+	for _, fn := range c.P.AllModFuncs() { // helpers too
+		if _, ok := blocks[fn]; ok || fnPkgShort(c, fn) != "fsutil" {
+			continue
+		}
+		eng.InstrsShallow(fn, func(in ssa.Instruction) {
+			if what, ok := blockingOp(in); ok && blocks[fn] == "" {
+				blocks[fn] = what
+			}
+		})
+	}
+	for changed := true; changed; {
+		changed = false
+		for _, fn := range c.P.AllModFuncs() {
+			if blocks[fn] != "" || fnPkgShort(c, fn) != "fsutil" {
+				continue
+			}
+			eng.InstrsShallow(fn, func(in ssa.Instruction) {
+				if cl, ok := in.(*ssa.Call); ok && blocks[fn] == "" {
+					if callee := cl.Call.StaticCallee(); callee != nil && blocks[callee] != "" {
+						blocks[fn] = "calls " + c.name(callee) + " (" + blocks[callee] + ")"
+						changed = true
+					}
+				}
+			})
+		}
+	}
+	sites, held := 0, 0
+	for _, fn := range c.P.AllModFuncs() {
+		if fnPkgShort(c, fn) != "fsutil" || c.P.IsTestFile(fn.Pos()) {
+			continue
+		}
+		var la *eng.Locks
+		eng.InstrsShallow(fn, func(in ssa.Instruction) {
+			what, ok := blockingOp(in)
+			if !ok {
+				if cl, isCall := in.(*ssa.Call); isCall {
+					if callee := cl.Call.StaticCallee(); callee != nil && blocks[callee] != "" {
+						what, ok = "call of "+c.name(callee)+", which may block ("+blocks[callee]+")", true
+					}
+				}
+			}
+			if !ok {
+				return
+			}
+			sites++
+			if la == nil {
+				la = c.P.MayLockAnalysis(fn)
+			}
+			var names []string
+			for id := range la.Held(in) {
+				if v, isVar := id.(*types.Var); isVar {
+					if v.Name() == "mu" && c.name(fn) == "fsutil.(*syncStream).SendMsg" {
+						continue // the send mutex of the stream wrapper
+					}
+					names = append(names, v.Name())
+				} else {
+					names = append(names, fmt.Sprint(id))
+				}
+			}
+			if len(names) > 0 {
+				held++
+				c.R.Fail(rule, c.siteName(in)+"/blocks-with-mutex-held", c.pos(in), fmt.Sprintf("%s may execute while %s is held: every goroutine that needs the mutex (the receive loop for each DATA packet, the request loop, the writers) stops until the peer makes progress - which may itself depend on them", what, strings.Join(sortedStrings(names), ", ")))
+			}
+		})
+	}
+	c.R.Floor(rule, "blocking sites in package fsutil", sites, 25)
+	if held == 0 {
+		c.R.OK(rule, "fsutil/no-blocking-under-mutex", "-", fmt.Sprintf("%d blocking sites, none reachable with a mutex held", sites))
+	}
+}
+
 // R08.4: publish before close.
 func r08_4(c *Ctx, rule string) {
 	c.R.Rule(rule, "a result field is stored before the channel that announces it is closed, and read elsewhere only after a receive on that channel")
@@ -420,24 +558,24 @@ var sharedFieldTable = map[string]struct {
 	funcs  []string
 	reason string
 }{
-	"sender.files":               {kind: "lock"},
-	"sender.progressCurrent":     {kind: "lock"},
-	"sender.mu":                  {kind: "mutex"},
-	"sender.progressCurrentMu":   {kind: "mutex"},
-	"receiver.files":             {kind: "lock"},
-	"receiver.pipes":             {kind: "lock"},
-	"receiver.mu":                {kind: "mutex"},
-	"receiver.muPipes":           {kind: "mutex"},
-	"receiver.orderValidator":    {kind: "confined", reason: "validator state is only touched by the receive loop"},
-	"receiver.hlValidator":       {kind: "confined", reason: "validator state is only touched by the receive loop"},
-	"dynamicWalker.err":          {kind: "publish"},
-	"wrappedWriteCloser.err":     {kind: "publish"},
-	"wrappedWriteCloser.once":    {kind: "mutex"},
-	"DiskWriter.dirModTimes":     {kind: "reasoned", funcs: []string{"fsutil.(*DiskWriter).HandleChange", "fsutil.(*DiskWriter).Wait$1"}, reason: "written by the diff goroutine only (HandleChange); read in Wait after that goroutine's doubleWalkDiff returned (R04.5 orders Wait after the diff)"},
-	"hashedWriter.dgst":          {kind: "reasoned", funcs: []string{"fsutil.(*hashedWriter).Close", "fsutil.(*hashedWriter).Digest"}, reason: "written in Close, which runs before close(done) (R08.4); Digest is read by the notify callback after Wait observed done"},
-	"lazyFileWriter.f":           {kind: "reasoned", funcs: []string{"fsutil.(*lazyFileWriter).Write", "fsutil.(*lazyFileWriter).Close"}, reason: "Write and Close of one pipe are only called from the single receive loop (R08.2, R07.5)"},
-	"lazyFileWriter.fileMode":    {kind: "reasoned", funcs: []string{"fsutil.(*lazyFileWriter).Write", "fsutil.(*lazyFileWriter).Close"}, reason: "as lazyFileWriter.f"},
-	"syncStream.mu":              {kind: "mutex"},
+	"sender.files":             {kind: "lock"},
+	"sender.progressCurrent":   {kind: "lock"},
+	"sender.mu":                {kind: "mutex"},
+	"sender.progressCurrentMu": {kind: "mutex"},
+	"receiver.files":           {kind: "lock"},
+	"receiver.pipes":           {kind: "lock"},
+	"receiver.mu":              {kind: "mutex"},
+	"receiver.muPipes":         {kind: "mutex"},
+	"receiver.orderValidator":  {kind: "confined", reason: "validator state is only touched by the receive loop"},
+	"receiver.hlValidator":     {kind: "confined", reason: "validator state is only touched by the receive loop"},
+	"dynamicWalker.err":        {kind: "publish"},
+	"wrappedWriteCloser.err":   {kind: "publish"},
+	"wrappedWriteCloser.once":  {kind: "mutex"},
+	"DiskWriter.dirModTimes":   {kind: "reasoned", funcs: []string{"fsutil.(*DiskWriter).HandleChange", "fsutil.(*DiskWriter).Wait$1"}, reason: "written by the diff goroutine only (HandleChange); read in Wait after that goroutine's doubleWalkDiff returned (R04.5 orders Wait after the diff)"},
+	"hashedWriter.dgst":        {kind: "reasoned", funcs: []string{"fsutil.(*hashedWriter).Close", "fsutil.(*hashedWriter).Digest"}, reason: "written in Close, which runs before close(done) (R08.4); Digest is read by the notify callback after Wait observed done"},
+	"lazyFileWriter.f":         {kind: "reasoned", funcs: []string{"fsutil.(*lazyFileWriter).Write", "fsutil.(*lazyFileWriter).Close"}, reason: "Write and Close of one pipe are only called from the single receive loop (R08.2, R07.5)"},
+	"lazyFileWriter.fileMode":  {kind: "reasoned", funcs: []string{"fsutil.(*lazyFileWriter).Write", "fsutil.(*lazyFileWriter).Close"}, reason: "as lazyFileWriter.f"},
+	"syncStream.mu":            {kind: "mutex"},
 }
 
 // R08.5: shared-state census.
@@ -452,7 +590,7 @@ func r08_5(c *Ctx, rule string) {
 			continue
 		}
 		for _, f := range fields {
-			name := typ + "." + f.Name()
+			name := typ + "." + eng.CanonField("fsutil."+typ, f.Name())
 			muts := fieldMutations(c, f)
 			if len(muts) == 0 && len(cen.FieldEscapes(f)) == 0 {
 				continue
